@@ -45,18 +45,20 @@ MANIFEST = {
             '(port_affine), Isc Zth = Voc and Zth Yth = 1, any network with the same two readings - in particular the netlists V(Voc)+Z(Zth) and '
             'I(Isc)|Y(Yth), whose terminal relations are proved - delivers the same (u, j) to ANY load relation (load_invariance), and for netlists '
             'that do not refer to ground the relation is the same whichever node is the reference (ground_indep).  The hand model of the probes '
-            '(kill, apply_test_current/voltage_source, Isc+Vshort_, impedance, admittance, transfer) is proved to read these quantities when initial '
+            '(kill, apply_test_current/voltage_source incl. the removal of sources across the input, Isc+Vshort_, impedance, admittance, transfer) is proved to read these quantities when initial '
             'conditions are killed and refuted when they are kept.  Series/parallel one-port trees of any shape: th/no compute the Thevenin/Norton '
             'pair and the terminal relation is that line.  The model is tied to the working tree on every run by evaluating it inside Coq on the '
             'circuits the real code analysed.',
     'note': 'Trusted: Coq kernel/vm_compute; tools/tr_stamps.py; spec coq/theory/Circuit.v; hand models props/C04model.v (probes; a killed V source is a 0 V '
-            'source instead of a wire; _add_ground = index -1, props/C04ground.v) and props/C01model.v validated by correspondence; witnesses and the '
-            'left-inverse certificate are computed by the harness (exact rationals) and CHECKED in Coq (cert_determined turns the certificate into the '
-            'well-posedness hypothesis); sympy linear solve, node merging and the Superposition/Laplace bookkeeping of Lcapy are modelled as oracles; '
-            'models whose source was passed through a numerical inverse Laplace transform (floating-point coefficients) are not compared.  Findings '
-            '(known_findings.json): impedance/admittance/thevenin/norton/transfer keep initial conditions (DESIGN 6-F2); OnePort.thevenin/norton of a '
-            'source-free reactive network evaluate the immittance at s = 0; ParSer.Voc/Isc ignored initial conditions (6-F9) and the ladder shortcut '
-            'of transfer() on a shorted port (both fixed in /repo during the build).',
+            'source instead of a wire; _add_ground = index -1, props/C04ground.v; apply_test_voltage_source removes the independent V sources across '
+            'the input, m_remove_vs) validated by correspondence; the checkers are field-generic and run over Qc (dc, transient, ivp, resistive) and over '
+            'the Gaussian rationals LT.QcI (ac: one angular frequency, phasors, immittances at s = j omega); witnesses and the left-inverse certificate are '
+            'computed by the harness (exact rationals / Gaussian rationals) and CHECKED in Coq (cert_determined turns the certificate into the '
+            'well-posedness hypothesis); sympy linear solve, node merging and the Superposition/Laplace/phasor bookkeeping of Lcapy are modelled as oracles; '
+            'models whose source was passed through a numerical inverse Laplace transform (floating-point coefficients) are not compared; not modelled: '
+            'mutual inductance in ac, dependent/ammeter/transformer branches across a transfer() input, several signal kinds at once, the ladder shortcut '
+            'of transfer() itself (compared against the documented route and the model, not modelled).  Findings: see known_findings.json (open: '
+            'NetlistOpsMixin.transfer:ladder-unplaced-components).',
     'technique': 'Coq proof (linear algebra over an abstract field, induction over netlists and trees) + in-Coq certificate checking of the probes against the MNA model regenerated from source + load-invariance search oracle',
 }
 
@@ -504,6 +506,15 @@ CORPUS_NETS = [
 ]
 
 
+# one-port trees whose only excitation is an initial condition nested inside a sub-network of the other kind
+CORPUS_TREES = [
+    ['par', [['ser', [['C', '1', '5'], ['R', '2']]], ['R', '3']]],
+    ['ser', [['par', [['L', '2', '1'], ['R', '3']]], ['R', '4']]],
+    ['par', [['ser', [['R', '2'], ['par', [['C', '3', '4'], ['R', '5']]]]], ['R', '7']]],
+    ['par', [['ser', [['C', '3', '4'], ['R', '2']]], ['ser', [['L', '5', '1'], ['V', 'step', '6']]]]],
+]
+
+
 def gen_cases(rng, tier):
     n_net = int(os.environ.get('VERIF_NCASES', 72 if tier == 'quick' else 800))
     n_tree = int(os.environ.get('VERIF_NTREES', 28 if tier == 'quick' else 300))
@@ -551,6 +562,12 @@ def gen_cases(rng, tier):
             others = [x for x in nodes if x not in c['port']]
             c['swap'] = True
             c['ground'] = [c['port'][0]] + ([rng.choice(others)] if others else [])
+    for t in CORPUS_TREES:
+        lines = []
+        tree_lines(t, '1', '0', {}, lines)
+        ld = gen_load(rng, 'ivp', '5/2', force='VR')
+        cases.append({'mode': 'oneport', 'tree': t, 'netlist': lines, 'profile': 'ivp', 's0': '5/2', 'tags': ['oneport', 'ivp', 'corpus'],
+                      'load': ld['lines'], 'load_cur': ld['cur'], 'loadline': {'kind': ld['kind'], 'E': ld['E'], 'Zl': ld['Zl']}})
     k = 0
     tries = 0
     while k < n_tree and tries < 20 * n_tree:
@@ -908,6 +925,9 @@ def oracle(case, wr, info):
     """list of (name, detail) for every relation between Lcapy's own outputs that fails"""
     bad = []
     api = wr['api']
+    # transfer functions belong to the killed network: comparable whatever the sources are
+    if fr(api.get('H')) is not None and fr(api.get('H_direct')) is not None and fr(api['H']) != fr(api['H_direct']):
+        bad.append(('transfer_route', 'transfer() = %s but apply_test_voltage_source().Voc() = %s' % (fr(api['H']), fr(api['H_direct']))))
     if case['mode'] == 'net' and (not info.get('wellposed') or len(wr.get('groups', [])) > 1):
         return bad          # several signal kinds at once, unsupported class, or not well-posed at the point / at dc: no single line to test
     g = lambda k: fr(api.get(k))
@@ -948,8 +968,6 @@ def oracle(case, wr, info):
             ex = intersect(mv['Voc'], mv['Z'], line)
             if ex is not None and ex != lo:
                 bad.append(('load_orig', 'original+load (u, j) = %s, exact Thevenin/load intersection %s' % (lo, ex)))
-    if g('H') is not None and g('H_direct') is not None and g('H') != g('H_direct'):
-        bad.append(('transfer_route', 'transfer() = %s but apply_test_voltage_source().Voc() = %s' % (g('H'), g('H_direct'))))
     if api.get('Zswap') is not None and fr(api.get('Zswap')) is not None and Z is not None and fr(api['Zswap']) != Z:
         bad.append(('ground_swap_z', 'impedance(p, m) = %s, impedance(m, p) = %s' % (Z, fr(api['Zswap']))))
     if fr(api.get('Vocswap')) is not None and Voc is not None and fr(api['Vocswap']) != -Voc:
